@@ -130,9 +130,9 @@ func SyncLedger(cm *chain.Manager, l *Ledger) {
 	}
 }
 
-func (b *Builder) height() uint64     { return b.CM.Tip().Height }
-func (b *Builder) v2Allowed() bool    { return b.height()+1 >= b.Env.Net.HardforkV2.AllowHeight }
-func (b *Builder) v1Allowed() bool    { return b.height()+1 < b.Env.Net.HardforkV2.RequireHeight }
+func (b *Builder) height() uint64  { return b.CM.Tip().Height }
+func (b *Builder) v2Allowed() bool { return b.height()+1 >= b.Env.Net.HardforkV2.AllowHeight }
+func (b *Builder) v1Allowed() bool { return b.height()+1 < b.Env.Net.HardforkV2.RequireHeight }
 func (b *Builder) payee(r *rng.R) types.Address {
 	if r.Chance(1, 2) {
 		return b.Env.Addr
@@ -632,7 +632,7 @@ func (b *Builder) Mine(r *rng.R) (types.Block, []string) {
 		}
 		blk.V2.Commitment = cs.Commitment(miner, blk.Transactions, blk.V2Transactions())
 	}
-	FindNonce(cs, &blk)
+	FindNonceFrom(cs, &blk, uint64(r.Intn(1<<20)))
 	if err := b.CM.AddBlocks([]types.Block{blk}); err != nil {
 		panic(fmt.Sprintf("builder: mined block rejected: %v (kinds %v)", err, b.Kinds))
 	}
@@ -647,10 +647,14 @@ func (b *Builder) Mine(r *rng.R) (types.Block, []string) {
 }
 
 // FindNonce grinds the nonce (instant with the test target).
-func FindNonce(cs consensus.State, b *types.Block) {
+func FindNonce(cs consensus.State, b *types.Block) { FindNonceFrom(cs, b, 0) }
+
+// FindNonceFrom grinds the nonce starting at start*factor, so that otherwise
+// identical sibling blocks get different ids.
+func FindNonceFrom(cs consensus.State, b *types.Block, start uint64) {
 	bh := b.Header()
-	bh.Nonce = 0
 	factor := cs.NonceFactor()
+	bh.Nonce = start * factor
 	for bh.ID().CmpWork(cs.PoWTarget()) < 0 {
 		bh.Nonce += factor
 	}
